@@ -504,6 +504,52 @@ def round_obligations(S):
     return obls, fns
 
 
+# ----------------------------------------------------------------------------- find: the regex search offset
+
+def find_obligations(S):
+    """`regex::Regex::find_at(haystack, start)` panics when start > haystack.len() (its documented precondition).
+    FindFn::find_regex_in_str and the `find` entry point (`from` is an arbitrary i64 cast to usize) must only call it
+    with an offset inside the haystack."""
+    obls, fns = [], []
+    cands = [x for x in S.prog.find(None, "FindFn", "find_regex_in_str")]
+    if len(cands) != 1:
+        raise Unencodable(f"FindFn::find_regex_in_str: {len(cands)} bodies")
+    f = cands[0]
+    fns.append((f.name, f.text_hash))
+
+    def m_str_len(ex, st, callee, args, dest_ty, frame, depth):
+        nm = ex.val_name(st, args[0])
+        ln = z3.BitVec(f"len({nm})", 64)
+        st.assume(z3.ULE(ln, z3.BitVecVal((1 << 63) - 1, 64)))
+        return [(st, Outcome("ret", Prim("usize", ln)))]
+    ex = S.executor(oracles=[(re.compile(r"^regex::Regex::find_at$"), Recorder("find_at")), (re.compile(r"<impl str>::len$"), m_str_len)],
+                    opaque=OPAQUE + [r"^<value::value::regex::ValueRegex as Deref>::deref$", r"^regex::Match::<'_>::start$"])
+    hay = ex.fresh("&str", "haystack")
+    off = z3.BitVec("offset", 64)
+    paths = ex.run(f, [hay, ex.fresh("&value::value::regex::ValueRegex", "regex"), Prim("usize", off)])
+    n_calls = 0
+    for pi, p in enumerate(paths):
+        if p.outcome.kind != "ret":
+            o = Obl(f"C04:find:{p.outcome.kind}", {"C04"}, f"C04:find:{p.outcome.kind}#path{pi}", p, z3.BoolVal(False), {"msg": p.outcome.msg})
+            o.ex = ex
+            obls.append(o)
+            continue
+        for e in p.st.trace:
+            if e["kind"] != "find_at":
+                continue
+            n_calls += 1
+            start = ex.as_prim(e["args"][2]).e
+            hname = ex.val_name(p.st, e["args"][1])
+            ln = z3.BitVec(f"len({hname})", 64)
+            role = "C04:find:regex-search-starts-inside-the-haystack"
+            o = Obl(role, {"C04"}, f"{role}#path{pi}", p, z3.And(z3.ULE(start, ln), z3.BoolVal(hname == "haystack")), {"start": str(z3.simplify(start))[:80], "haystack": hname})
+            o.ex = ex
+            obls.append(o)
+    if not n_calls and not any(p.outcome.kind == "ret" for p in paths):
+        raise Unencodable("find_regex_in_str: no returning path")
+    return obls, fns
+
+
 def obligations(S=None, radices=(2, 10, 16, 36), max_digits=2):
     S = S or session()
     obls, fns = [], []
@@ -518,6 +564,9 @@ def obligations(S=None, radices=(2, 10, 16, 36), max_digits=2):
     obls += o
     fns += f
     o, f = round_obligations(S)
+    obls += o
+    fns += f
+    o, f = find_obligations(S)
     obls += o
     fns += f
     return obls, sorted(set(fns))
@@ -535,6 +584,10 @@ def replayer(o, model):
         src = f".r = abs({i})\n" if i != -(1 << 63) else ".r = abs(-9223372036854775807 - 1)\n"
         want = abs(i) if i != -(1 << 63) else -(1 << 63)
         return "run", {"source": src, "event": {}}, {"outcome": "ok", "event_eq": {"r": {"Integer": str(want)}}}
+    if ":find:" in role:
+        src = ('.a = find("foobar", r\'o\', 6)\n.b = find("foobar", r\'o\', 7)\n.c = find("foobar", r\'o\', 100)\n.d = find("foobar", r\'o\', -1)\n'
+               '.e = find("foobar", r\'o\', 2)\n.f = find("foobar", "o", 100)\n.g = find("", r\'o\', 1)\n')
+        return "run", {"source": src, "event": {}}, {"outcome": "ok", "event_eq": {"a": "Null", "b": "Null", "c": "Null", "d": "Null", "e": {"Integer": "2"}, "f": "Null", "g": "Null"}}
     if ":round_to_precision[" in role or role.endswith(":hands-float-and-precision-to-round_to_precision"):
         import struct
 
